@@ -31,6 +31,7 @@ func init() {
 }
 
 func runC15(c *Ctx) {
+	defer ruleHitDoesNotEvict(c, "C15.12")
 	setF := c.NeedFunc("C15.0", "storage.(*LRUCache).set")
 	getF := c.NeedFunc("C15.0", "storage.(*LRUCache).get")
 	if setF == nil || getF == nil {
